@@ -793,7 +793,7 @@ func (x *Exec) backEdge(li *loopInfo, st *State) {
 // exitEdges checks the exit-when clauses of every loop left by the edge from -> to.
 func (x *Exec) exitEdges(from, to *ssa.BasicBlock, st *State) {
 	for _, li := range x.loopList {
-		if !li.body[from] || li.body[to] {
+		if !(li.body[from] || li.ext[from]) || li.body[to] || li.ext[to] {
 			continue
 		}
 		if !strings.HasSuffix(to.Comment, ".done") {
